@@ -361,6 +361,33 @@ func c06Block(o *fw.Obs, rng *rand.Rand) {
 			break
 		}
 	}
+	// the index the ingest path builds from the encoded block (key cells picked by a StrListEditor) is the same index
+	if len(pk) > 0 {
+		var fb *objects.BlockIndex
+		var ferr error
+		if pn := fw.Catch(func() {
+			fb, ferr = objects.IndexBlockFromBytes(objects.NewStrListDecoder(false), meow.New(0), objects.NewStrListEditor(pk), stored, pk)
+		}); pn != "" {
+			o.Violate("panic/IndexBlockFromBytes/"+class, "%s", pn)
+			return
+		}
+		var fbuf bytes.Buffer
+		if ferr == nil {
+			fb.WriteTo(&fbuf)
+		}
+		o.Ev("oracle_evaluations", 1)
+		if ferr != nil || !bytes.Equal(fbuf.Bytes(), istored) {
+			o.Violate("index-from-bytes-differs/IndexBlockFromBytes/"+class, "the block index built from the encoded block differs from the one built from the rows (pk %v, err %v)", pk, ferr)
+		}
+	}
+	// saving over damaged bytes repairs them: after a successful save the block reads back
+	bkey := append([]byte("blk/"), sum...)
+	db.Set(bkey, []byte{1, 2, 3})
+	if _, _, err := objects.SaveBlock(db, nil, stored); err == nil {
+		if gb2, _, err := objects.GetBlock(db, nil, sum); err != nil || len(gb2) != len(blk) {
+			o.Violate("saved-block-unreadable/SaveBlock/"+class, "SaveBlock over damaged bytes reported success but GetBlock gives %v", err)
+		}
+	}
 	isum, _, err := objects.SaveBlockIndex(db, nil, istored)
 	if err != nil || !bytes.Equal(isum, meowSum(istored)) {
 		o.Violate("key-not-hash/SaveBlockIndex/"+class, "sum %x hash %x err %v", isum, meowSum(istored), err)
@@ -439,6 +466,38 @@ func c06Profile(o *fw.Obs, rng *rand.Rand) {
 	raw, _ := db.Get(append([]byte("tblsum/"), tsum...))
 	if !bytes.Equal(raw, stored) {
 		o.Violate("stored-bytes-differ/SaveTableProfile", "profile not stored under its table's sum")
+	}
+	// a profile is stored under its table's sum, not under its own hash: a refreshed profile (wrgl profile --refresh)
+	// replaces the earlier one, and what reads back is what was written last
+	tp2 := *tp
+	tp2.RowsCount = tp.RowsCount + 7
+	var buf3 bytes.Buffer
+	tp2.WriteTo(&buf3)
+	if err := objects.SaveTableProfile(db, tsum, buf3.Bytes()); err != nil {
+		o.Violate("save-error/SaveTableProfile", "second save: %v", err)
+		return
+	}
+	o.Ev("oracle_evaluations", 1)
+	if gp2, err := objects.GetTableProfile(db, tsum); err != nil || gp2.RowsCount != tp2.RowsCount {
+		o.Violate("get-differs/GetTableProfile/refreshed", "a second profile saved for the same table does not read back (err %v)", err)
+	}
+	// likewise the table index
+	tix := [][]string{{"a"}, {"b"}}
+	for round, first := range []string{"k1", "k2"} {
+		tix[0][0] = first
+		var tb bytes.Buffer
+		enc := objects.NewStrListEncoder(true)
+		if _, err := objects.WriteBlockTo(enc, &tb, tix); err != nil {
+			break
+		}
+		if err := objects.SaveTableIndex(db, tsum, tb.Bytes()); err != nil {
+			o.Violate("save-error/SaveTableIndex", "%v", err)
+			break
+		}
+		if got, err := objects.GetTableIndex(db, tsum); err != nil || len(got) != 2 || got[0][0] != first {
+			o.Violate("get-differs/GetTableIndex", "table index saved in round %d does not read back: %v %v", round, got, err)
+			break
+		}
 	}
 	o.Key("profile/c%d/r%d", ncols, nrows)
 }
